@@ -193,3 +193,46 @@ From JB Require Import CodecProofs.
 Theorem C17_write_to_vec_appends : forall v, wf_size v = true -> forall buf, write_to_vec buf v = buf ++ enc v.
 Proof. exact write_to_vec_spec. Qed.
 Print Assumptions C17_write_to_vec_appends.
+
+(* ---- selections write into TWO caller vectors (data, offsets).  SelSt.v models Selector::select / get_by_path* as state
+   functions over the pair, with the order of effects of the Rust code; SelStProofs.v: ---- *)
+From JB Require Import SelSt SelStProofs.
+
+(* "an error appends nothing", for selections, on ANY root bytes, any path, any mode, any content of the two vectors: an Err
+   return leaves BOTH vectors as they were — it can only be an error of the path evaluation, which runs to its end before the
+   first write; the result writers themselves (build_values, build_scalar_array, build_predicate_result) never return Err *)
+Theorem C17_selection_errors_append_nothing :
+  (forall bs ps m s e, snd (select_st bs ps m s) = Err e -> fst (select_st bs ps m s) = s /\ find_positions_w bs None ps = Err e) /\
+  (forall md bs ps s e, snd (get_by_path_gen_st md bs ps s) = Err e -> fst (get_by_path_gen_st md bs ps s) = s) /\
+  (forall bs poses, no_err (build_values_st bs poses) /\ no_err (build_scalar_array_st bs poses) /\ no_err (build_predicate_result_st poses)).
+Proof. exact (conj select_st_err (conj get_by_path_gen_st_err writers_never_err)). Qed.
+Print Assumptions C17_selection_errors_append_nothing.
+
+(* what is left on arbitrary root bytes, exactly: the state function does what its view (select_w / get_by_path_gen_w: the
+   functions the C08 / C15 theorems are about) says — on Ok the view's data and the caller's offsets followed by the view's;
+   on Err both vectors untouched and the same error; a panic exactly when the view panics (vectors then unobservable) *)
+Theorem C17_selection_state_on_any_input :
+  (forall bs ps m, agrees (select_st bs ps m) (select_w bs ps m)) /\
+  (forall md bs ps, agrees (get_by_path_gen_st md bs ps) (get_by_path_gen_w md bs ps)).
+Proof. exact (conj select_st_view get_by_path_gen_st_view). Qed.
+Print Assumptions C17_selection_state_on_any_input.
+
+(* on the encoding of a well-formed document: the selected items behind the caller's bytes, the offsets as positions in the
+   caller's buffer behind the caller's offsets; an error leaves both as they were *)
+Theorem C17_bytes_selection_state : forall v ps m data o0, wfb v = true ->
+  match select_t (normalise v) ps m [] with
+  | Ok (d, o) => select_st (enc v) ps m (data, o0) = ((data ++ d, o0 ++ map (fun x => lenN data + x) o), Ok tt)
+  | Err e => select_st (enc v) ps m (data, o0) = ((data, o0), Err e)
+  | Panic => snd (select_st (enc v) ps m (data, o0)) = Panic
+  end.
+Proof. exact select_st_enc. Qed.
+Print Assumptions C17_bytes_selection_state.
+
+Example C17_selection_state_example :
+  let doc := VArr [VNum (NUInt 1); VStr [120]; VArr []] in
+  select_st (enc doc) [PRoot; PBracketWild] MAll ([7; 7], [2]) =
+    (([7; 7] ++ enc (VNum (NUInt 1)) ++ enc (VStr [120]) ++ enc (VArr []), [2; 12; 21; 25]), Ok tt) /\
+  select_st (enc doc) [PRoot; PBracketWild; PFilter (EPaths [])] MAll ([7; 7], [2]) = (([7; 7], [2]), Err EOther) /\
+  snd (select_st (firstn 20 (enc doc)) [PRoot; PBracketWild] MAll ([7; 7], [2])) = Panic.
+Proof. exact select_st_example. Qed.
+Print Assumptions C17_selection_state_example.
